@@ -23,8 +23,8 @@ fn range(ty: Option<&str>, tag: &str, extra: &str) -> Val {
     })
 }
 
-pub const KINDS: [&str; 26] = [
-    "plural_unused_form_var", "plural_unused_form_comp", "fk_two_hops_plural", "fk_two_hops_range", "plural_plain", "plural_other_plain", "range_plain", "string", "var_x", "var_y_number", "var_x_date", "comp_b", "comp_i_var_x", "comp_b_var_y", "comp_b_comp_i_var_w", "comp_b_twice", "range_i32", "range_u8", "range_f32", "plural", "fk_rename_plural", "fk_rename_range", "fk_lit_count", "null", "number", "bool",
+pub const KINDS: [&str; 28] = [
+    "fk_arg_into_comp", "fk_arg_into_plural_form", "plural_unused_form_var", "plural_unused_form_comp", "fk_two_hops_plural", "fk_two_hops_range", "plural_plain", "plural_other_plain", "range_plain", "string", "var_x", "var_y_number", "var_x_date", "comp_b", "comp_i_var_x", "comp_b_var_y", "comp_b_comp_i_var_w", "comp_b_twice", "range_i32", "range_u8", "range_f32", "plural", "fk_rename_plural", "fk_rename_range", "fk_lit_count", "null", "number", "bool",
 ];
 
 /// entries for key `k` of kind `kind` (plural adds two entries)
@@ -67,6 +67,9 @@ pub fn kind_entries(kind: &str, tag: &str) -> Vec<(String, Val)> {
         "fk_two_hops_plural" => one(s(vec![text(&format!("[{tag}]")), fk("mid_pl")])),
         "fk_two_hops_range" => one(s(vec![text(&format!("[{tag}]")), fk("mid_rg")])),
         "fk_lit_count" => one(s(vec![fk_args("rg", vec![("count", FkArg::UInt(0))])])),
+        // an argument replaces a variable wherever the target holds it: inside a component, inside a plural form
+        "fk_arg_into_comp" => one(s(vec![text(&format!("[{tag}]")), fk_args("badge", vec![("name", FkArg::Str(vec![var("player")]))])])),
+        "fk_arg_into_plural_form" => one(s(vec![text(&format!("[{tag}]")), fk_args("pl", vec![("m", FkArg::Str(vec![text("«"), var("mm"), text("»")]))])])),
         "null" => one(Val::Null),
         "number" => one(Val::UInt(7)),
         "bool" => one(Val::Bool(true)),
@@ -79,6 +82,7 @@ pub fn helper_entries(loc: &str) -> Vec<(String, Val)> {
         ("pl_one".into(), s(vec![text(&format!("[{loc}.pl.one]")), var("count")])),
         ("pl_other".into(), s(vec![text(&format!("[{loc}.pl.other]")), var("count"), var("m")])),
         ("rg".into(), range(Some("u16"), &format!("{loc}.rg"), "q")),
+        ("badge".into(), s(vec![comp("b", vec![var("name"), comp("i", vec![var("name")])]), text(&format!(" [{loc}.badge] ")), var("points")])),
         ("mid_pl".into(), s(vec![fk_args("pl", vec![("count", FkArg::Str(vec![var("n")]))])])),
         ("mid_rg".into(), s(vec![fk_args("rg", vec![("count", FkArg::Str(vec![var("n")]))])])),
     ]
